@@ -133,7 +133,7 @@ def user_regime(rng, cfg, thumb=None):
             regs[n - 2] = (1 | 9 << 1, KDATA, 1 << 8)               # kernel data: privileged only (1 KiB)
             regs[n - 3] = (1 | 7 << 1, G.LOW, 2 << 8)               # vectors: user read-only (256 B)
             privonly = [[G.STACKS, G.STACKS + 0x1000], [KDATA, KDATA + 0x400]]
-        sys.update(G.mpu_sys(regs))
+        sys.update(G.mpu_sys(regs, nu=rng.getrandbits(1)))
     if not pmsa and rng.random() < 0.5:
         # MMU on (short descriptors, tables written by gen_user): identity pages for the low MiB; the handler stacks and the translation
         # tables themselves are privileged-only, the vectors page is read-only for User code
@@ -214,18 +214,37 @@ def gen_user(rng):
 UNPRIV = ['ldrt', 'strt', 'ldrbt', 'strbt', 'ldrht', 'strht', 'ldrsbt', 'ldrsht']
 
 
-def unpriv_word(kind, thumb, rt, rn):
-    """(word, address offset from Rn, size, is_write)"""
+def unpriv_word(kind, thumb, rt, rn, f=None):
+    """(word, address offset from Rn).  f: optional operand choices {'imm', 'u', 'reg', 'rm'}; the ARM encodings are post-indexed (address = Rn,
+    the offset only feeds the write-back), the Thumb T1 encodings are offset forms (address = Rn + imm8).  Every base register - SP included,
+    where LDRT Rt,[SP],#4 sits one bit away from POP {Rt} - every offset and the register-offset encodings (A2) are used"""
+    f = f or {}
+    imm, u = f.get('imm', 4), f.get('u', 1)
     if thumb:
-        imm = 4
+        imm &= 0xFF
         base = {'ldrt': 0xF8500E00, 'strt': 0xF8400E00, 'ldrbt': 0xF8100E00, 'strbt': 0xF8000E00, 'ldrht': 0xF8300E00, 'strht': 0xF8200E00,
                 'ldrsbt': 0xF9100E00, 'ldrsht': 0xF9300E00}[kind]
         return base | rn << 16 | rt << 12 | imm, imm
+    reg, rm = f.get('reg', 0), f.get('rm', 12)
     if kind in ('ldrt', 'strt', 'ldrbt', 'strbt'):
-        w = {'ldrt': A.ldrt, 'strt': A.strt, 'ldrbt': A.ldrbt, 'strbt': A.strbt}[kind](rt, rn, 4, 1)
+        w = {'ldrt': A.ldrt, 'strt': A.strt, 'ldrbt': A.ldrbt, 'strbt': A.strbt}[kind](rt, rn, imm & 0xFFF, u)
+        if reg:
+            w = (w & 0xFFFFF000) | 1 << 25 | (f.get('shift', 0) & 31) << 7 | rm            # A2: [Rn], +/-Rm, LSL #shift
         return w, 0
     op = {'strht': (0, 0xB), 'ldrht': (1, 0xB), 'ldrsbt': (1, 0xD), 'ldrsht': (1, 0xF)}[kind]
-    return 0xE0E00000 | op[0] << 20 | rn << 16 | rt << 12 | op[1] << 4 | 4, 0       # post-indexed, imm 4, U=1
+    w = 0xE0600000 | u << 23 | op[0] << 20 | rn << 16 | rt << 12 | op[1] << 4
+    if reg:
+        return (w & ~(1 << 22)) | rm, 0                                                      # A2: [Rn], +/-Rm
+    return w | (imm & 0xF0) << 4 | (imm & 0xF), 0                                            # A1: post-indexed, imm8
+
+
+def unpriv_operands(rng):
+    """operand choices of one unprivileged load/store test (see unpriv_word)"""
+    rn = rng.choice([13, 13, 13, 8, 9, 10, 11, 12, 14])
+    rt = rng.randrange(0, 8)
+    rm = rng.choice([x for x in (0, 0, 0, 8, 9, 10, 11, 12, 14) if x != rn and x != rt] or [9])
+    return {'rt': rt, 'rn': rn, 'f': {'imm': rng.choice([4, 4, 4, 0, 8, 1, 2, 0xFC, rng.getrandbits(8)]), 'u': rng.choice([1, 1, 0]), 'reg': int(rng.random() < 0.25),
+                                      'rm': rm, 'shift': rng.choice([0, 0, 2])}}
 
 
 def gen_unpriv(rng):
@@ -251,7 +270,7 @@ def gen_unpriv(rng):
         page = rng.randrange(0, 5)
         off = 8 * rng.randrange(2, 28)
         mis = rng.choice([0, 0, 0, 1, 2, 3])       # unaligned word/halfword accesses go byte by byte (SCTLR.U=1, A=0): every byte is a User access
-        tests.append({'kind': kind, 'rn_val': G.DATA + 0x100 * page + off + mis, 'rt': rng.randrange(0, 8), 'rn': 8 + rng.randrange(0, 4)})
+        tests.append(dict(unpriv_operands(rng), kind=kind, rn_val=G.DATA + 0x100 * page + off + mis))
     sys = {'sctlr': G.sctlr_value(m=1, a=0, u=1, te=thumb, br=br)}
     sys.update(G.mpu_sys(regs))
     cpsr = G.random_cpsr(rng, cfg, mode=mode, thumb=thumb) | 0x1C0
@@ -329,7 +348,7 @@ def gen_unpriv_vmsa(rng):
         else:
             j = rng.randrange(5)
             va, ap = VM_WIN + 0x1000 * j + off + mis, aps[j]
-        tests.append({'kind': kind, 'rn_val': va, 'rt': rng.randrange(0, 8), 'rn': 8 + rng.randrange(0, 4), 'ap': ap, 'dom': dom})
+        tests.append(dict(unpriv_operands(rng), kind=kind, rn_val=va, ap=ap, dom=dom))
     dacr = 1 << (2 * dom_code) | (1 if dom_kind == 'client' else 3) << (2 * dom_test)
     sys = {'sctlr': G.sctlr_value(m=1, a=0, u=1, te=thumb, tre=1, afe=0), 'prrr': 0x000AAAAA, 'nmrr': 0x40E040E0, 'ttbr0': VM_TABLES,       # TRE=0 ends in a declared-unimplemented hook
            'ttbr0_64': VM_TABLES, 'ttbr1': 0, 'ttbcr': 0, 'dacr': dacr}       # (the walker reads the 64-bit TTBR0 storage)
@@ -378,7 +397,7 @@ def gen_unpriv_lpae(rng):
         else:
             j = rng.randrange(8)
             va, ap2, at = 0x200000 + 0x1000 * j + off + mis, aps[j], apt
-        tests.append({'kind': kind, 'rn_val': va, 'rt': rng.randrange(0, 8), 'rn': 8 + rng.randrange(0, 4), 'ap2': ap2, 'apt': at, 'pa': G.DATA + off + mis})
+        tests.append(dict(unpriv_operands(rng), kind=kind, rn_val=va, ap2=ap2, apt=at, pa=G.DATA + off + mis))
     sys = {'sctlr': G.sctlr_value(m=1, a=0, u=1, te=thumb, tre=1, afe=0), 'ttbcr': 1 << 31 | 1 << 16, 'ttbr0_64': VM_TABLES, 'ttbr1_64': 0,      # T1SZ=1: TTBR0 translates the lower 2 GiB
            'mair0': 0xFFFFFFFF, 'mair1': 0xFFFFFFFF}
     cpsr = G.random_cpsr(rng, cfg, mode=mode, thumb=thumb) | 0x1C0
@@ -556,9 +575,10 @@ def run_unpriv(case):
         kind = tst['kind']
         for variant in ('unpriv', 'plain'):
             M.load_state(arm, start)
-            r.set(tst['rn'], tst['rn_val'])
-            w, off = unpriv_word(kind, thumb, tst['rt'], tst['rn'])
-            addr = (tst['rn_val'] + off) & 0xFFFFFFFF
+            w, off = unpriv_word(kind, thumb, tst['rt'], tst['rn'], tst.get('f'))
+            rn_val = (tst['rn_val'] + 4 - off) & 0xFFFFFFFF if thumb else tst['rn_val']        # Thumb: whatever the offset, the access is at rn_val + 4
+            r.set(tst['rn'], rn_val)
+            addr = (rn_val + off) & 0xFFFFFFFF
             write = kind.startswith('str')
             if variant == 'plain':
                 # the ordinary privileged access to the same address: LDR/STR Rt,[Rn,#off]
@@ -574,6 +594,14 @@ def run_unpriv(case):
             if b.cores[0].dead:
                 return b
             vm = case.get('vmsa')
+            if ((r.cpsr.value & 0x1F) == 0x1b and pre_mode != 0x1b) or (pre_mode == 0x1b and r.pc_store_value() in (0x4, 0xFFFF0004, r.vbar.value + 4)):
+                # the word was rejected as an Undefined Instruction (the tree does that for some valid register-offset encodings, e.g. STRT A2 with
+                # Rm != r0): no access was made, so nothing was checked with the wrong permissions - not C19's subject, as long as nothing moved
+                b.count('probe.unpriv-rejected-as-undefined')
+                if (M.peek(arm, tst.get('pa', 0) & ~3, 8), r.get_rmode(tst['rt'], pre_mode)) != before:
+                    b.violate('unpriv.mpu_model', kind, 'data_transferred', '%s %s at %#x ended in an Undefined Instruction entry but memory/Rt changed' % (variant, kind, addr))
+                    return b
+                continue
             if case.get('lpae'):
                 # long descriptors: leaf AP[2:1] restricted by the APTable bits of the table descriptor above; a refused access ends in the
                 # emulator's declared-unimplemented long-descriptor fault path (NotImplementedError) or in a Data Abort — either way nothing
